@@ -22,6 +22,7 @@ struct SdesSeen {
 
 fn observe_sdes(b: &[u8]) -> Result<SdesSeen, RtcpParseError> {
     let p = Sdes::parse(b)?;
+    crate::mon::parsers::parser_returned();
     let bound = obs::bound_for(b.len());
     let base = b.as_ptr() as usize;
     let mut chunks = vec![];
@@ -66,8 +67,16 @@ pub fn check_c10(ctx: &mut Ctx, input: &[u8]) {
     ctx.eval();
     let class = dec::sdes_classify(b);
     crate::mon::c01::st!("Sdes::parse");
+    crate::mon::parsers::reset_parser_returned();
     let r = call(|| observe_sdes(b));
     let seen = match r {
+        // A parser that unwinds has neither accepted nor yielded anything. For a well-formed packet that is
+        // this property ("the parser accepts it"); for the other classes an unwinding *parser* is C01's
+        // business, while an unwinding *accessor* on an accepted value means it yields no tokenisation.
+        Err(_) if !crate::mon::parsers::did_parser_return() && !matches!(class, SdesClass::MustAccept(_)) => {
+            crate::mon::parsers::other_property(ctx, "c10", "parser-panics(C01)");
+            return;
+        }
         Err(p) => {
             ctx.violate(
                 "no-panic",
@@ -348,8 +357,10 @@ pub fn check_c15(ctx: &mut Ctx, transport: bool, fmt: u8, fci: &[u8]) {
             );
             return;
         }
-        Ok(Err(e)) => {
-            ctx.violate("feedback-accepted", "feedback", "framed", case, "a well-framed feedback packet is accepted", format!("{e:?}"));
+        Ok(Err(_)) => {
+            // "for every feedback packet *accepted by the parser*": a rejected packet owes nothing here
+            // (that well-formed packets are accepted is C09's second clause)
+            crate::mon::parsers::other_property(ctx, "c15", "well-framed-feedback-rejected(C09)");
             return;
         }
         Ok(Ok(o)) => o,
@@ -714,7 +725,10 @@ pub fn check_c13(ctx: &mut Ctx, base: &[u8], pad: u8) {
             return;
         }
         Err(p) => {
-            ctx.violate("no-panic", name, "unpadded", case, "accessors return on the unpadded packet", format!("panic at {}: {}", short_site(&p.site), p.msg));
+            // the reference observation itself unwinds: nothing to compare the padded packet with (C01's business)
+            let _ = &p;
+            let _ = &case;
+            crate::mon::parsers::other_property(ctx, "c13", "unpadded-observation-panics(C01)");
             return;
         }
     };
